@@ -54,7 +54,7 @@ def base_env():
 
 def hooks():
     def align(ev, n):
-        pts = ev.ev(n.args[1])
+        pts = cyc.aligned_points_arg(ev, n)
         return SV("tuple", items=[pts, SV("rot")])
 
     def argmax(ev, n):
